@@ -199,6 +199,17 @@ func corpus() []*Scenario {
 	cs(sc, "has_number_eq", 0, "10")
 	out = append(out, sc)
 
+	// an input collation goflow does not define (given as "" in the environment JSON, or an unknown name set by a host
+	// in Go): word tests must still answer (fixed: input collation is validated and defaults)
+	for _, col := range []string{"<empty>", "unicode", "confusables"} {
+		sc = base("switch")
+		std(sc, 4)
+		sc.Default, sc.Collation, sc.TriggerText = 3, col, "Yes please"
+		cs(sc, "has_any_word", 0, "yes")
+		cs(sc, "has_phrase", 1, "yes please")
+		out = append(out, sc)
+	}
+
 	// previous result under the same key with the same value and category: saved again, no event
 	sc = base("switch")
 	std(sc, 4)
